@@ -104,8 +104,11 @@ Inductive out_t :=
 Inductive where_t := WSleep0 | WFuture | WReturn | WRaise (e : exn).
 
 Inductive obs :=
-  | OMsg (m : nat) | OEMsg (c : cmd) | OState (a b : rstate) | ODoc (d : doc) | ODev (d : nat) (m : devmeth)
-  | OPlanIn (pid : nat) (i : input) | OOut (o : out_t) (s : rstate) (deferred : bool)
+  | OMsg (m : msg)                       (* msg_hook: a message is about to be processed *)
+  | OResp (r : resp)                     (* the command coroutine finished with this response / exception *)
+  | OState (a b : rstate) | ODoc (d : doc) | ODev (d : nat) (m : devmeth)
+  | OPlanIn (pid : nat) (i : input)      (* what the engine sends / throws into user plan pid *)
+  | OOut (o : out_t) (s : rstate) (deferred resumable_ : bool)
   | OTask (w : where_t) | OReq (ok : bool) | OBad (n : nat).
 
 (* ------------------------------------------------------------------ bundler (minimal) *)
@@ -918,7 +921,7 @@ Fixpoint drive (fuel : nat) (s : st) (c : ctl) (os : list obs) : st * list obs :
         | _, _ => drive fuel' s (CExit (XExn EOther)) (os ++ [OBad 2])
         end
     | CProcess m =>
-        let o0 := match mid m with Some i => [OMsg i] | None => [OEMsg (mcmd m)] end in
+        let o0 := [OMsg m] in
         let s1 := match mobj m with Some d => set_seen s (insert_sorted d (seen s)) | None => s end in
         let s2 := match cache s1 with
                   | Some l => if rewindable s1 && cacheable (mcmd m) then set_cache s1 (Some (l ++ [m])) else s1
@@ -929,7 +932,8 @@ Fixpoint drive (fuel : nat) (s : st) (c : ctl) (os : list obs) : st * list obs :
                              | _ => exec_cmd s2 m
                              end in
         match cr with
-        | Done r => drive fuel' s3 (CContinue true r) (os ++ o0 ++ o3)
+        | Done r => drive fuel' s3 (CContinue true r)
+                          (os ++ o0 ++ o3 ++ match mcmd m with CUnknown => [] | _ => [OResp r] end)
         | Susp k => (set_pc s3 (PcCmd k), os ++ o0 ++ o3 ++ [OTask WFuture])
         end
     | CContinue popped r =>
@@ -1004,15 +1008,17 @@ Definition task_step (s : st) : st * list obs :=
         match k with
         | KReadCache run d z =>
             let '(s1, cr, o) := finish_read (mark_cached s0 run d) run d z [] in
-            drive (FUEL s1) s1 (CContinue true (match cr with Done r => r | Susp _ => RVal VNone end)) o
-        | KSleep => drive (FUEL s0) s0 (CContinue true (RVal VNone)) []
+            let r := match cr with Done r => r | Susp _ => RVal VNone end in
+            drive (FUEL s1) s1 (CContinue true r) (o ++ [OResp r])
+        | KSleep => drive (FUEL s0) s0 (CContinue true (RVal VNone)) [OResp (RVal VNone)]
         | KCkptSleep =>
             let '(s1, e, o) := request_pause s0 false in
-            drive (FUEL s1) s1 (CContinue true (match e with Some x => RExn x | None => RVal VNone end)) o
+            let r := match e with Some x => RExn x | None => RVal VNone end in
+            drive (FUEL s1) s1 (CContinue true r) (o ++ [OResp r])
         | KWait sids =>
-            drive (FUEL s0) s0 (CContinue true (RVal (VBool true))) (if all_resolved s0 sids then [] else [OBad 6])
+            drive (FUEL s0) s0 (CContinue true (RVal (VBool true))) ((if all_resolved s0 sids then [] else [OBad 6]) ++ [OResp (RVal (VBool true))])
         | KWaitFor fs =>
-            drive (FUEL s0) s0 (CContinue true (RVal (VFuts (List.length fs)))) (if all_released s0 fs then [] else [OBad 7])
+            drive (FUEL s0) s0 (CContinue true (RVal (VFuts (List.length fs)))) ((if all_released s0 fs then [] else [OBad 7]) ++ [OResp (RVal (VFuts (List.length fs)))])
         end
   | PcFinalSleep r =>
       if cancelled then finalize s0 r (Some ECancelled) else finalize s0 r None
@@ -1026,10 +1032,15 @@ Inductive event :=
   | EvReqSuspend (sid : nat) (pre post : bool)
   | EvRelease (sid : nat)
   | EvStatus (sid : nat) (ok : bool)
+  | EvResumeTask      (* _resume_task() called by abort()/stop()/halt() on a paused engine: clears the blocking event *)
   | EvCacheDone.      (* the describe/config caching tasks spawned by a bundled read have completed *)
 
+(* the result of the first request after a main-thread abort()/stop()/halt() is that call's result *)
 Definition req_result (s : st) (e : option exn) : st * list obs :=
-  (set_mreq s (Some (match e with Some x => inl x | None => inr (run_uids s) end)),
+  ((match mreq s with
+    | None => set_mreq s (Some (match e with Some x => inl x | None => inr (run_uids s) end))
+    | Some _ => s
+    end),
    [OReq (match e with Some _ => false | None => true end)]).
 
 Definition clear_call (s : st) : st :=
@@ -1041,6 +1052,7 @@ Definition clear_call (s : st) : st :=
 Definition step (s : st) (e : event) : st * list obs :=
   match e with
   | EvPermit => (set_permit s true, [])
+  | EvResumeTask => (set_blocking s false, [])
   | EvTask => task_step s
   | EvRelease sid => (set_futs s (aset sid true (futs s)), [])
   | EvCacheDone =>
@@ -1162,7 +1174,7 @@ Definition step (s : st) (e : event) : st * list obs :=
                 end
             end
         end in
-      (set_main s (mreq s) false None (exit_reason_set s), [OOut o (state s) (deferred s)])
+      (set_main s (mreq s) false None (exit_reason_set s), [OOut o (state s) (deferred s) (resumable s)])
   end.
 
 Fixpoint run (s : st) (evs : list event) : st * list obs :=
